@@ -15,7 +15,7 @@
 //! asm ensure <ord|unord>                 ensure_ordering   -> ok | <state>  or  err IllegalOrderedRead | <state>
 //! asm clear                              clear             -> ok | <state>
 //! asm q                                  bytes_read        -> ok <n>
-//! <state> = r=<bytes_read> e=<end> m=<ord|unord> rc=<recvd ranges> c=<offsets covered by buffered chunks, merged>
+//! <state> = r=<bytes_read> e=<end> m=<ord|unord> rc=<recvd ranges> c=<offsets covered by buffered chunks (ordered mode: at or after the read index), merged>
 //! ```
 use bytes::Bytes;
 
@@ -31,8 +31,13 @@ impl AsmC {
 
     fn state(&self) -> String {
         let (unordered, recvd, chunks, bytes_read, end) = self.0.verif_state();
-        let mut cov: Vec<std::ops::Range<u64>> =
-            chunks.iter().map(|&(o, l)| o..o + l as u64).collect();
+        // ordered mode: chunks below the read index are popped lazily; they are dead data and
+        // are not part of the observable state
+        let lo = if unordered { 0 } else { bytes_read };
+        let mut cov: Vec<std::ops::Range<u64>> = chunks
+            .iter()
+            .map(|&(o, l)| o.max(lo)..(o + l as u64).max(lo))
+            .collect();
         cov.sort_by_key(|r| (r.start, r.end));
         let mut merged: Vec<std::ops::Range<u64>> = Vec::new();
         for r in cov {
